@@ -304,7 +304,8 @@ def evalMatch (e : Endian) (m : KMaps) (pk : PktK) (c : RCtx) (ms : List Nat) (i
     (if value &&& mask != 0 then { c with state := c.state ||| ST_GOOD } else c, false)
   else if t = MT_DomainSet then matchDomainSet m pk c index
   else if t = MT_ProcessName then
-    (if pk.wanw % 256 != 0 && msPname ms == pk.pname then { c with state := c.state ||| ST_GOOD } else c, false)
+    -- `is_wan && *(const __u8 *)pname != 0 && equal16(match_set->pname, pname)`
+    (if pk.wanw % 256 != 0 && pk.pname.headD 0 != 0 && msPname ms == pk.pname then { c with state := c.state ||| ST_GOOD } else c, false)
   else if t = MT_Dscp then
     (if pk.dscpw % 256 == msDscp ms then { c with state := c.state ||| ST_GOOD } else c, false)
   else if t = MT_Fallback then ({ c with state := c.state ||| ST_GOOD }, false)
